@@ -532,6 +532,23 @@ def inline_model_handles(repo) -> List[str]:
                 if isinstance(n, ast.Attribute) and isinstance(n.ctx, (ast.Store, ast.Del)) and n.attr in roles and isinstance(n.value, ast.Name) \
                         and n.value.id == 'model':
                     return done
+    # attribute names that are bound on `self` in constructors and stored nowhere else in the tree (parameter objects of the model parts)
+    in_ctor: set = set()
+    elsewhere: set = set()
+    for mi in repo.modules.values():
+        for fn in ast.walk(mi.tree):
+            if isinstance(fn, (ast.FunctionDef, ast.AsyncFunctionDef)):
+                for n in ast.walk(fn):
+                    if isinstance(n, ast.Attribute) and isinstance(n.ctx, (ast.Store, ast.Del)):
+                        if fn.name == '__init__' and isinstance(n.value, ast.Name) and fn.args.args and n.value.id == fn.args.args[0].arg:
+                            in_ctor.add(n.attr)
+                        else:
+                            elsewhere.add(n.attr)
+        for n in mi.tree.body:          # module level / class level code
+            for x in ast.walk(n) if not isinstance(n, (ast.FunctionDef, ast.AsyncFunctionDef, ast.ClassDef)) else []:
+                if isinstance(x, ast.Attribute) and isinstance(x.ctx, (ast.Store, ast.Del)):
+                    elsewhere.add(x.attr)
+    ctor_only = in_ctor - elsewhere - {'value', 'CurrentUnits', 'PreferredUnits'}
     for mi in repo.modules.values():
         touched = False
         for fn in [x for x in ast.walk(mi.tree) if isinstance(x, (ast.FunctionDef, ast.AsyncFunctionDef))]:
@@ -560,6 +577,11 @@ def inline_model_handles(repo) -> List[str]:
                     continue
                 if isinstance(val, ast.Attribute) and isinstance(val.value, ast.Name) and val.value.id in bases and val.attr in roles \
                         and stores.get(val.value.id, 0) == 0:
+                    handles[tgt] = val
+                # ... and to a parameter object of a part (`irr = model.economics.ProjectIRR`): such attributes are bound in constructors only
+                elif isinstance(val, ast.Attribute) and isinstance(val.value, ast.Attribute) and isinstance(val.value.value, ast.Name) \
+                        and val.value.value.id in bases and val.value.attr in roles and stores.get(val.value.value.id, 0) == 0 \
+                        and val.attr in ctor_only:
                     handles[tgt] = val
             if not handles:
                 continue
